@@ -131,6 +131,35 @@ theorem singleFloat64_eq_fixedPoint (x : Lattigo.CKKS.SD) (scale : Lattigo.CKKS.
 theorem fixedPointRNS_residues (P : ℕ) (x : Lattigo.CKKS.SD) (scale : Lattigo.CKKS.Dy) (qs : List ℕ) :
     fixedPointRNS P x scale qs = qs.map (fun (q : ℕ) => (Lattigo.CKKS.fixedPoint P x scale % (q : ℤ)).toNat) := rfl
 
+/-- **arbitrary-precision Decode divides by the scale itself**: for `|c| < 2^P` the value returned for a coefficient
+    `c` is the correctly rounded (`P` bits, relative error ≤ 2^-P) quotient `c/scale`, for EVERY 128-bit scale
+    (products of primes, scales left by a rescale, …), with the sign of `c`. -/
+theorem decodeFP_correctly_rounded (P : ℕ) (c : ℤ) (scale : Lattigo.CKKS.Dy) (hc : c ≠ 0) (hs : 0 < scale.m)
+    (hb : Lattigo.CKKS.bitLen c.natAbs ≤ P) :
+    (decodeFP P c scale).neg = decide (c < 0) ∧
+    |(decodeFP P c scale).mag.val - (c.natAbs : ℚ) / scale.val|
+      ≤ (c.natAbs : ℚ) / scale.val * (2 : ℚ) ^ (-(P : ℤ)) := by
+  refine ⟨rfl, ?_⟩
+  have hn : 0 < c.natAbs := Int.natAbs_pos.mpr hc
+  unfold decodeFP
+  simp only
+  set x := Lattigo.CKKS.roundRat P c.natAbs 1 0 with hx
+  have hxv : x.val = (c.natAbs : ℚ) := by
+    rw [hx, Lattigo.CKKS.roundRat_exact P c.natAbs 0 hn hb]; simp
+  have hxm : 0 < x.m := (Lattigo.CKKS.Dy.val_pos_iff x).mp (by rw [hxv]; exact_mod_cast hn)
+  have h := Lattigo.CKKS.roundRat_spec P x.m scale.m (x.e - scale.e) hxm hs
+  have e : (x.m : ℚ) / (scale.m : ℚ) * (2 : ℚ) ^ (x.e - scale.e) = (c.natAbs : ℚ) / scale.val := by
+    rw [← hxv]
+    unfold Lattigo.CKKS.Dy.val
+    rw [zpow_sub₀ (by norm_num : (2 : ℚ) ≠ 0)]
+    have : (scale.m : ℚ) ≠ 0 := by positivity
+    have : (2 : ℚ) ^ scale.e ≠ 0 := by positivity
+    field_simp
+  rw [e] at h
+  exact h
+example : decodeFP 64 (-18551838483) ⟨35184372088321, 0⟩ = ⟨true, Lattigo.CKKS.roundRat 64 18551838483 35184372088321 0⟩ := by
+  decide +kernel
+
 /-- the rounding is to nearest, half away from zero (`trunc(x ± 1/2)`). -/
 theorem roundHalfAway_nearest (num : ℤ) (den : ℕ) (hd : 0 < den) :
     |(roundHalfAway num den : ℚ) - (num : ℚ) / den| ≤ 1 / 2 := roundHalfAway_spec num den hd
@@ -193,3 +222,4 @@ end Lattigo.Props.C07CKKS
 #print axioms Lattigo.Props.C07CKKS.fixedPoint_exact
 #print axioms Lattigo.Props.C07CKKS.singleFloat64_eq_fixedPoint
 #print axioms Lattigo.Props.C07CKKS.fixedPointRNS_residues
+#print axioms Lattigo.Props.C07CKKS.decodeFP_correctly_rounded
